@@ -1,8 +1,8 @@
 package main
 
 import (
-	"math/big"
 	"fmt"
+	"math/big"
 	"os"
 	"path/filepath"
 	"regexp"
@@ -55,8 +55,8 @@ type (
 )
 
 type Clause struct {
-	Lemma bool // exit lemma (assumed after being obliged)
-	Site  int  // exit clauses: ordinal of the return statement they apply to (0: all)
+	Lemma bool   // exit lemma (assumed after being obliged)
+	Site  int    // exit clauses: ordinal of the return statement they apply to (0: all)
 	Kind  string // requires ensures modifies invariant decreases panics assume inline exit
 	Label string
 	Loop  int
@@ -87,20 +87,21 @@ type PredDecl struct {
 }
 
 type FuncContract struct {
-	Pkg      string // package path relative key (import path)
-	Recv     string // receiver type name, "" for functions; leading * kept
-	Name     string
-	Clauses  []*Clause
-	File     string
-	Line     int
-	Header   string
-	BitWidth int           // symbolic & | ^ &^ on signed ints are expanded over this many bits; operands are proved to lie in [0, 2^n)
-	Vocab    []VocabClause // SGR vocabulary inclusion checks
-	Tokens   bool          // interpret writes of constant escape-sequence templates as updates of the ghost pen
-	Overflow bool          // generate signed-overflow obligations for + - * in this function
-	Logs     []LogClause   // ghost-log primitives: calling this function appends a value to a named ghost log
-	Extern   bool          // assumed contract of a function outside the module
-	Unfold   []string      // recursive definitions whose unfolding axioms are given to the solver (default: none, applications stay opaque)
+	Pkg         string // package path relative key (import path)
+	Recv        string // receiver type name, "" for functions; leading * kept
+	Name        string
+	Clauses     []*Clause
+	File        string
+	Line        int
+	Header      string
+	BitWidth    int           // symbolic & | ^ &^ on signed ints are expanded over this many bits; operands are proved to lie in [0, 2^n)
+	Vocab       []VocabClause // SGR vocabulary inclusion checks
+	Tokens      bool          // interpret writes of constant escape-sequence templates as updates of the ghost pen
+	Overflow    bool          // generate signed-overflow obligations for + - * in this function
+	Logs        []LogClause   // ghost-log primitives: calling this function appends a value to a named ghost log
+	MapContents []string      // init-only maps whose lookups are expanded over the entries of their literal ("*": all)
+	Extern      bool          // assumed contract of a function outside the module
+	Unfold      []string      // recursive definitions whose unfolding axioms are given to the solver (default: none, applications stay opaque)
 }
 
 func (fc *FuncContract) Key() string {
@@ -127,7 +128,7 @@ type PkgContracts struct {
 	ExternAttr   map[string][]string      // "pkgpath.Type.Method" or callee string -> ufun name per result: the result is a fixed function of receiver and arguments (assumed)
 	ExternFuncs  map[string]*FuncContract // callee string -> assumed contract of a function outside the module
 	ExternNonNil map[string]bool
-	LogFields   map[string]string // "Type.Field" -> ghost log that records calls through the field
+	LogFields    map[string]string // "Type.Field" -> ghost log that records calls through the field
 	PkgPath      string
 }
 
@@ -465,7 +466,7 @@ func (p *parser) primary() Expr {
 
 var blockRe = regexp.MustCompile(`(?s)/\*@(.*?)@\*/`)
 var clauseKw = map[string]bool{"requires": true, "ensures": true, "modifies": true, "loop": true, "panics": true,
-	"assume": true, "exit": true, "func": true, "pred": true, "spec": true, "inline": true, "noinline": true, "pure": true, "ghost": true, "rec": true, "bits": true, "unfold": true, "logs": true, "overflow": true, "freshresult": true, "lemma": true, "bitwidth": true, "ufun": true, "purefield": true, "tokens": true, "bvtype": true, "vocab": true, "extern": true, "sets": true, "logfield": true}
+	"assume": true, "exit": true, "func": true, "pred": true, "spec": true, "inline": true, "noinline": true, "pure": true, "ghost": true, "rec": true, "bits": true, "unfold": true, "logs": true, "overflow": true, "freshresult": true, "lemma": true, "bitwidth": true, "ufun": true, "purefield": true, "tokens": true, "bvtype": true, "vocab": true, "extern": true, "sets": true, "logfield": true, "mapcontents": true}
 
 // ReadContracts parses every contracts_verif*.go file of a package directory.
 func ReadContracts(dir string) (*PkgContracts, error) {
@@ -725,6 +726,12 @@ func (pc *PkgContracts) parseBlock(body, file string, line0 int) error {
 				cl.E = rhs
 				cl.Mods = []Expr{lhs}
 				cur.Clauses = append(cur.Clauses, cl)
+				continue
+			case "mapcontents":
+				// mapcontents m1, m2 | *  -- lookups in these init-only maps are expanded over the literal's entries
+				for _, f := range strings.FieldsFunc(text, func(r rune) bool { return r == ',' || r == ' ' }) {
+					cur.MapContents = append(cur.MapContents, f)
+				}
 				continue
 			case "overflow":
 				cur.Overflow = true
